@@ -1,6 +1,7 @@
 import PbProofs.Dft
 import PbProofs.Freq
 import PbModel.Stft
+import PbModel.Gen.Stft
 
 /-! # C20 — pb.fft equals the reference DFT on both backends; STFT/ISTFT invert, label right
 
@@ -220,5 +221,47 @@ theorem C20_istft_inverse {P : ℕ} [NeZero P] (x : ZMod P → ℂ) :
 example : (stft ⟨⟨some 0, 8, 10⟩, ⟨400, 8, 2, "bottom"⟩⟩ 4).toOption.map
     (fun y => (y.led.len, y.band.n)) = some (2, 8) := by
   decide +kernel
+
+/-- the other usual spellings of "largest multiple of `P` not above `len`" -/
+theorem keep_alt (len P : Nat) : len / P * P = len - len % P := by
+  have h := Nat.div_add_mod len P
+  have : len / P * P = P * (len / P) := Nat.mul_comm _ _
+  omega
+
+theorem keep_alt2 (len P : Nat) : P * (len / P) = len - len % P := by
+  have h := Nat.div_add_mod len P
+  omega
+
+set_option linter.unusedTactic false in
+set_option linter.unreachableTactic false in
+set_option linter.unnecessarySeqFocus false in
+set_option linter.unusedSimpArgs false in
+/-- Tie to the source: the relabelling arithmetic of `contrib.stft` / `istft`, translated symbolically on every
+run (`Gen/Stft.lean`), is what the model's `stft` / `istft` compute: kept length `len − len % P`, rate `/P`
+resp. `·P` (also the new channel width), unchanged start, `'center'`/`'bottom'` by the parity of `nfft`,
+`'center'` after `istft`, the spectrum divided resp. multiplied by `nperseg`, `nfft` defaulting to `nperseg`. -/
+theorem C20_source_formulas :
+    (∀ z P r, Pb.Stft.stft z P = .ok r →
+      r.led.rate = Gen.Stft.subRate z.led.rate P ∧ r.band.bw = Gen.Stft.subRate z.led.rate P ∧
+      r.led.len = Gen.Stft.keepLen z.led.len P / P ∧ r.led.t0 = z.led.t0) ∧
+    (∀ z P r, Pb.Stft.istft z P = .ok r →
+      r.led.rate = Gen.Stft.joinRate z.led.rate P ∧ r.band.bw = Gen.Stft.joinRate z.led.rate P ∧
+      r.led.len = z.led.len * P ∧ r.led.t0 = z.led.t0) ∧
+    Gen.Stft.alignOdd = "center" ∧ Gen.Stft.alignEven = "bottom" ∧ Gen.Stft.joinAlign = "center" ∧
+    Gen.Stft.stftScale = ("div", "nperseg") ∧ Gen.Stft.istftScale = ("mul", "nperseg") ∧
+    Gen.Stft.nfftDefaultsToNperseg = true ∧ Gen.Stft.transforms = ["pb.fft.fft", "pb.fft.ifft"] := by
+  refine ⟨?_, ?_, by decide, by decide, by decide, by decide, by decide, by decide, by decide⟩
+  · intro z P r h
+    unfold Pb.Stft.stft at h
+    repeat' (split at h)
+    all_goals (cases h)
+    all_goals
+      refine ⟨?_, ?_, ?_, rfl⟩ <;> dsimp only <;> simp only [Gen.Stft.subRate, Gen.Stft.keepLen, keep_alt, keep_alt2] <;> first | rfl | ring1
+  · intro z P r h
+    unfold Pb.Stft.istft at h
+    repeat' (split at h)
+    all_goals (cases h)
+    all_goals
+      refine ⟨?_, ?_, rfl, rfl⟩ <;> dsimp only <;> simp only [Gen.Stft.joinRate] <;> first | rfl | ring1
 
 end Pb.C20
